@@ -19,6 +19,7 @@ import (
 	"fmt"
 	"io"
 	"log"
+	"net"
 	"net/http"
 	"os"
 	"strconv"
@@ -152,6 +153,36 @@ type c08srvEnv struct {
 	harnessErr string // first harness-level inconsistency (must not be ignored)
 	wireErr    string // the server wrote something the Framer could not parse
 	srvSettings map[SettingID]uint32
+
+	// The application's net/http.Server.ConnState callback, which the server
+	// calls on its serve goroutine. It returns at once unless a check armed
+	// it (holdIdleHook): then the next StateIdle callback - the server calls
+	// it inside closeStream when the last stream leaves its table - does not
+	// return before releaseHook. Only C10 arms it.
+	hookArmed  atomic.Bool
+	hookParked atomic.Bool
+	hookRel    chan struct{}
+}
+
+func (e *c08srvEnv) connState(_ net.Conn, s http.ConnState) {
+	if s != http.StateIdle || !e.hookArmed.CompareAndSwap(true, false) {
+		return
+	}
+	e.hookParked.Store(true)
+	<-e.hookRel
+	e.hookParked.Store(false)
+}
+
+// holdIdleHook: the next ConnState(StateIdle) callback is slow.
+func (e *c08srvEnv) holdIdleHook() { e.hookArmed.Store(true) }
+
+// releaseHook lets a parked ConnState callback return and waits for quiescence.
+func (e *c08srvEnv) releaseHook() {
+	e.hookArmed.Store(false)
+	if e.hookParked.Load() {
+		e.hookRel <- struct{}{}
+		synctest.Wait()
+	}
 }
 
 func (e *c08srvEnv) herr(format string, a ...any) {
@@ -190,14 +221,17 @@ func c08srvSched(name string) func() WriteScheduler {
 // with the given initial client SETTINGS. It never calls t.Fatal itself; the
 // repository helper newServerTester only does for invalid options.
 func c08srvNew(t testing.TB, cfg c08srvCfg, initial ...Setting) *c08srvEnv {
-	e := &c08srvEnv{t: t, calls: map[uint32]*c08srvCall{}, srvSettings: map[SettingID]uint32{}}
+	e := &c08srvEnv{t: t, calls: map[uint32]*c08srvCall{}, srvSettings: map[SettingID]uint32{}, hookRel: make(chan struct{})}
 	e.st = newServerTester(t, e.handler,
 		func(s *Server) {
 			s.NewWriteScheduler = c08srvSched(cfg.Sched)
 			s.MaxUploadBufferPerConnection = cfg.ConnWin
 			s.MaxUploadBufferPerStream = cfg.StrWin
 		},
-		func(h *http.Server) { h.ErrorLog = log.New(io.Discard, "", 0) },
+		func(h *http.Server) {
+			h.ErrorLog = log.New(io.Discard, "", 0)
+			h.ConnState = e.connState
+		},
 	)
 	if _, err := e.st.cc.Write([]byte(ClientPreface)); err != nil {
 		e.herr("writing preface: %v", err)
@@ -345,6 +379,7 @@ func (e *c08srvEnv) headersDep(id, dep uint32) bool {
 // teardown closes the connection and lets every handler return so that no
 // goroutine outlives the bubble.
 func (e *c08srvEnv) teardown() {
+	e.releaseHook() // a serve loop parked in the ConnState callback could never exit
 	e.st.cc.Close()
 	synctest.Wait()
 	e.mu.Lock()
